@@ -1085,7 +1085,7 @@ class HistogramBase(abc.ABC):
             frequencies = self.frequencies * scalar
             # Not `scalar**2`: a numpy scalar would be squared in its own (possibly narrow) type
             self.errors2 = self.errors2 * scalar * scalar
-            self.frequencies = frequencies
+            self._set_scaled_frequencies(frequencies)
             self._missed = self._missed * scalar
             if hasattr(self, "_stats"):
                 self._stats = self._stats * scalar
@@ -1100,6 +1100,14 @@ class HistogramBase(abc.ABC):
         else:
             raise TypeError("Histograms may be multiplied only by a constant.")
         return self
+
+    def _set_scaled_frequencies(self, frequencies: np.ndarray) -> None:
+        """Contents after a scaling that was accepted (and cannot have changed any sign)."""
+        if config.free_arithmetics:
+            self.frequencies = frequencies
+        else:
+            # Bins made negative under free arithmetics are no reason to refuse (half-way)
+            self._frequencies = self._adopt_values(np.asarray(frequencies))
 
     def __rmul__(self, other):
         return self * other
@@ -1119,7 +1127,7 @@ class HistogramBase(abc.ABC):
                 # Before anything is touched (the statistics would raise it afterwards)
                 raise ZeroDivisionError("Cannot divide a histogram by zero.")
             self._coerce_dtype(np.float64)
-            self.frequencies = self.frequencies / other
+            self._set_scaled_frequencies(self.frequencies / other)
             # Not `other**2`: a numpy scalar would be squared in its own (possibly narrow) type
             self.errors2 = self.errors2 / other / other
             self._missed /= other
